@@ -23,7 +23,7 @@ RULE = ('A case is one call sequence (30-200 calls) over one serializer instance
         'distinct_nontrivial = distinct emitted (gamma, claim, proof) byte triples that contain at least one Instantiate, Save or Load.')
 ASSUMPTIONS = ['calls the documented machine cannot apply but the tracker accepts (non-positive mu, redundant substitution, constraint-violating instantiation) are generated at a low rate and classified separately']
 FLOORS = {'quick': {'sequences': 1000, 'track:calls': 100000, 'track:top_comparisons': 50000, 'track:memory_comparisons': 3000, 'track:loads': 1000,
-                    'track:claim_comparisons': 1000, 'instantiate_unsorted_keys': 100, 'instantiate_pattern_unsorted_keys': 50, 'twin_notation_nodes': 100, 'track:publishes:gamma': 500, 'track:publishes:claim': 500,
+                    'track:claim_comparisons': 1000, 'instantiate_unsorted_keys': 100, 'instantiate_key_absent_from_premise': 100, 'instantiate_pattern_unsorted_keys': 50, 'twin_notation_nodes': 100, 'loaded_axiom_instantiated': 100, 'track:publishes:gamma': 500, 'track:publishes:claim': 500,
                     'track:publishes:proof': 500, 'modules_serialized': 20, 'own_tests:track_calls': 300,
                     **{f'track:call:{m}': 50 for m in track.METHODS}}}
 FLOORS['thorough'] = dict(FLOORS['quick'], sequences=20000)
@@ -54,6 +54,32 @@ def one_sequence(ctx, rng, memo):
     if rng.random() < 0.5:
         p = rp.rand_term(rng, 1, meta=False, notation=0.0, syms=('a', 'b'))
         claims.append((tb.to_repo(tb.im(p, p), P), ('imp_refl', p)))
+    if rng.random() < 0.25:
+        # an axiom with open metavariables - a schematic pattern, or a notation node that leaves parameters open (over a definition that is
+        # itself an application of another notation with permuted parameters) - loaded in the proof and instantiated there
+        from frozendict import frozendict
+        notes = repo.all_notations()
+        if rng.random() < 0.6:
+            nt = notes[rng.choice(('syn_rand', 'syn_shift', '_and', 'equiv'))][0]
+            used = sorted(nt.definition.metavars())
+            bound = [i for i in range(nt.arity) if rng.random() < 0.5]
+            if len([i for i in used if i not in bound]) == 0:
+                bound = [i for i in bound if i != used[-1]]
+            ax = P.Instantiate(nt.definition, frozendict({i: rp.fold(rp.rand_term(rng, 1, meta=False, notation=0.2, syms=('a', 'b', 'c')), rng, 0.3) for i in bound}))
+        else:
+            ax = rp.fold(rp.rand_term(rng, 2, meta=True, notation=0.4, substs=False, syms=('a', 'b', 'c'), constrained=0.0, mvs=(0, 1, 2)), rng, 0.6)
+        ax_e = tb.of_repo(ax)
+        open_ids = sorted(tb.metavar_ids(ax_e))
+        if open_ids and tb.norm_py(ax_e) not in [tb.norm_py(x) for x in axioms_e]:
+            keys = [i for i in open_ids if rng.random() < 0.7] or open_ids[:1]
+            rng.shuffle(keys)
+            delta_e = {i: rp.rand_term(rng, 1, meta=rng.random() < 0.3, notation=0.2, substs=False, syms=('a', 'b', 'c'), constrained=0.0, mvs=(0, 1, 2)) for i in keys}
+            try:
+                goal_e = tb.inst(ax_e, delta_e, 'strict', check='doc')
+                axioms.append(ax); axioms_e.append(ax_e)
+                claims.append((tb.to_repo(goal_e, P), ('inst_axiom_open', len(axioms) - 1, delta_e)))
+            except tb.Undefined:
+                pass
     # claims must be pairwise different (ProofExp asserts that; the tracker pops by position)
     uniq = []
     for c, r in claims:
@@ -113,6 +139,12 @@ def one_sequence(ctx, rng, memo):
                 d.call('load', 'ax', l)
                 d.call('load', 'ax', r_)
                 pr = d.call('modus_ponens', l, r_)
+            elif recipe[0] == 'inst_axiom_open':
+                delta = {i: it.pattern(rp.fold(v, rng, 0.3)) for i, v in recipe[2].items()}     # plugs first, in the map's order
+                pr = Proved(axioms[recipe[1]])
+                d.call('load', 'ax', pr)
+                pr = d.call('instantiate', pr, delta)
+                ctx.count('loaded_axiom_instantiated')
             elif recipe[0] == 'prop1':
                 q = it.pattern(tb.to_repo(recipe[2], P))
                 p = it.pattern(tb.to_repo(recipe[1], P))
